@@ -232,7 +232,11 @@ def check(pid, tier="quick", seed=1, replay=None):
     known = load_known(pid)
 
     # 1. translation tie
-    t_ok, t_lost = translate(log)
+    t_ok, t_lost_all = translate(log)
+    # only this property's own items (and groups it names) count for it; a lost item of
+    # another property that this one's proofs depend on still shows up as a broken build
+    groups = [pid] + prop.get("translate_groups", [])
+    t_lost = [l for l in t_lost_all if l.split(".", 1)[0] in groups]
     gen_driver()
 
     # 2. proofs
